@@ -190,7 +190,13 @@ func (p *Prog) Pos(pos token.Pos) string {
 
 // SrcFuncs returns all source-level functions (including anonymous ones and
 // methods, generic bodies included) of the module package rel.
-func (p *Prog) SrcFuncs(rel string) []*ssa.Function {
+func (p *Prog) SrcFuncs(rel string) []*ssa.Function { return p.srcFuncs(rel, true) }
+
+// SrcFuncsRaw lists every source function of the package, also helpers that
+// are being looked through (for analyses that have their own call-site handling).
+func (p *Prog) SrcFuncsRaw(rel string) []*ssa.Function { return p.srcFuncs(rel, false) }
+
+func (p *Prog) srcFuncs(rel string, skipTransparent bool) []*ssa.Function {
 	sp := p.Pkg(rel)
 	if sp == nil {
 		return nil
@@ -203,7 +209,10 @@ func (p *Prog) SrcFuncs(rel string) []*ssa.Function {
 			return
 		}
 		seen[f] = true
-		out = append(out, f)
+		// a helper that is being looked through is enumerated with the function it is read in, not on its own
+		if !skipTransparent || transparentOf(f) == nil {
+			out = append(out, f)
+		}
 		for _, a := range f.AnonFuncs {
 			add(a)
 		}
